@@ -372,11 +372,18 @@ func TestC03NAPT(t *testing.T) {
 // ---- 1:1 mode ---------------------------------------------------------------
 
 func runOneToOne(t *rapid.T, c *ev.Case, focus string) {
-	k := rapid.IntRange(1, 3).Draw(t, "pairs")
+	k := rapid.IntRange(1, 5).Draw(t, "pairs")
 	var ext, loc []net.IP
+	// the pairs are configured in a drawn order (neither side sorted), external and local
+	// numbering unrelated
+	extOrder := rapid.Permutation([]int{1, 2, 3, 4, 5}).Draw(t, "extOrder")
+	locOrder := rapid.Permutation([]int{2, 3, 4, 5, 6}).Draw(t, "locOrder")
 	for i := 0; i < k; i++ {
-		ext = append(ext, net.IPv4(27, 1, 1, byte(1+i)))
-		loc = append(loc, net.IPv4(192, 168, 0, byte(2+i)))
+		ext = append(ext, net.IPv4(27, 1, 1, byte(extOrder[i])))
+		loc = append(loc, net.IPv4(192, 168, 0, byte(locOrder[i])))
+	}
+	if k >= 3 {
+		c.Label("pairs>=3")
 	}
 	nat, err := vnet.VerifNewNAT(vnet.NATType{Mode: vnet.NATModeNAT1To1}, ext, loc)
 	if err != nil {
@@ -464,7 +471,7 @@ func runOneToOne(t *rapid.T, c *ev.Case, focus string) {
 	_ = focus
 }
 
-const ruleOneToOne = "1:1 mode, k = 1..3 IP pairs: outbound from each paired local IP (and an unpaired one) with ports {1,80,5000,49152,65535}, inbound to each paired external IP (and an unpaired one); oracle: paired IP rewritten to its partner with the port preserved, other address and payload unchanged; unpaired inbound dropped; non-trivial = at least one paired translation; distinct by hash of the events"
+const ruleOneToOne = "1:1 mode, k = 1..5 IP pairs configured in a drawn order: outbound from each paired local IP (and an unpaired one) with ports {1,80,5000,49152,65535}, inbound to each paired external IP (and an unpaired one); oracle: paired IP rewritten to its partner with the port preserved, other address and payload unchanged; unpaired inbound dropped; non-trivial = at least one paired translation; distinct by hash of the events"
 
 func TestC02OneToOne(t *testing.T) {
 	r := ev.New("C02", "one-to-one", ruleOneToOne)
